@@ -169,4 +169,17 @@ theorem C12_v1_mid_policy_stops_at_mid (std : Std) :
       = .error (.unknownKeys ['M'] [['z']]) := by
   refine ⟨⟨_, rfl⟩, rfl⟩
 
+/-- Example (the tag key a nested class tolerates is the one of its EFFECTIVE Meta): the leaf declares `tag = t` and
+`tag_key = k` itself, the root cascades `v1_on_unknown_key = RAISE` and another `tag_key = r`. Inside the leaf the
+key `k` is the (known) tag key; the root's key `r` is an unknown key there and is rejected, naming the leaf. -/
+theorem C12_v1_own_tag_key_wins (std : Std) :
+    let leaf : Ty := .cls { name := ['L'], fields := [{ name := ['a'] }], cmeta := some { tag := some ['t'], tagKey := some ['k'] } }
+      [(['a'], .any)]
+    let rmeta : MetaCfg := { v1 := some true, v1OnUnknown := some .raise, tagKey := some ['r'] }
+    let root : Ty := .cls { name := ['R'], fields := [{ name := ['m'] }], cmeta := some rmeta } [(['m'], leaf)]
+    (∃ y, fromdictV1 std root (.dict [(['m'], .dict [(['a'], .int 1), (['k'], .str ['t'])])]) = .ok y) ∧
+    fromdictV1 std root (.dict [(['m'], .dict [(['a'], .int 1), (['r'], .str ['t'])])])
+      = .error (.unknownKeys ['L'] [['r']]) := by
+  refine ⟨⟨_, rfl⟩, rfl⟩
+
 end DW.Props.C12
